@@ -139,18 +139,16 @@ def run_banks(cc, res, chunk=None):
         return run_reach(cc, res, entries, cls, idx, chunk)
     n = len(entries)
     row = z3.Int("row")
-    lens = z3.Array("len", z3.IntSort(), z3.IntSort())
-    okc = z3.Array("okc", z3.IntSort(), z3.BoolSort())
-    okb = z3.Array("okb", z3.IntSort(), z3.BoolSort())
+    bad_rows = []
     for i, e in enumerate(entries):
         code = e.get("bank_code") or ""
-        lens = z3.Store(lens, i, len(code))
-        conf = len(code) == len(idx) and all(iso13616.char_in_class(ord(ch), cls[j]) for ch, j in zip(code, idx))
-        okc = z3.Store(okc, i, bool(conf) or code == "")
+        conf = code == "" or (len(code) == len(idx) and all(iso13616.char_in_class(ord(ch), cls[j]) for ch, j in zip(code, idx)))
         bic = e.get("bic") or ""
-        okb = z3.Store(okb, i, bic == "" or iso9362.accepts_concrete(bic))
+        if not conf or not (bic == "" or iso9362.accepts_concrete(bic)):
+            bad_rows.append(i)
+    # "some row violates a clause" over a symbolic row index (the per-row facts are constants of the data)
     s = z3.SimpleSolver()
-    s.add(row >= 0, row < n, z3.Or(z3.Not(z3.Select(okc, row)), z3.Not(z3.Select(okb, row))))
+    s.add(row >= 0, row < n, z3.Or([row == i for i in bad_rows]) if bad_rows else z3.BoolVal(False))
     r = s.check()
     ctx.start()
     ctx.stats.bump("queries")
